@@ -58,6 +58,9 @@ def gen_ud(rng, acc):
     after the message header (ASCII digits, dots, colons), which is where a header
     parser that is too greedy goes wrong"""
     r = rng.random()
+    if r < 0.1:
+        # ends like a status word
+        return (rng.randbytes(30) + rng.choice([b"\x90\x00", b"\x6a\x87"])).hex()
     if r < 0.7:
         return rng.randbytes(32).hex()
     acc.count("ud_values_continuing_the_header")
